@@ -53,6 +53,9 @@ vars == <<call, pc, todo, out>>
 (* Values: only the class matters to the gate.                               *)
 ValClass == [ one |-> "fin", three |-> "fin", neg |-> "fin", f25 |-> "fin", big |-> "fin", tiny |-> "fin",
               cplx |-> "fin",
+              \* non-zero finite values outside the range of binary doubles (10^400, 10^-400 as exact numbers,
+              \* 1e400 and 1e-330 as arbitrary-precision floats): finite and non-zero all the same
+              huge |-> "fin", fhuge |-> "fin", minute |-> "fin", fminute |-> "fin",
               zero |-> "zero", fzero |-> "zero",
               inf |-> "inf", finf |-> "inf", ninf |-> "ninf", nan |-> "nan", fnan |-> "nan" ]
 Classes == {"zero", "fin", "inf", "ninf", "nan"}
